@@ -419,6 +419,13 @@ func runScript(sc *Scenario, ro runOpts) *runResult {
 		}
 	}
 	rr.Probes["clock_tasks_started"] += int64(rr.ClockTasks)
+	for c := range rr.Records {
+		for i := range rr.Records[c] {
+			if rr.Records[c][i].Done {
+				rr.Probes["op:"+opNames[sc.Clients[c].Ops[i].Kind]]++
+			}
+		}
+	}
 	return rr
 }
 
